@@ -218,6 +218,38 @@ def stores(fn):
     return out
 
 
+def field_mutators(F, adt_head, field, fns=None):
+    """Functions (outermost) that may mutate `field` of struct `adt_head`: a store through a place ending in
+    .field..., or a mutable borrow / raw mut pointer of such a place, where the base local's type mentions the struct."""
+    out = {}
+    short_adt = last_seg(adt_head)
+    for f in (fns if fns is not None else F.fns.values()):
+        hits = []
+        for i, b in enumerate(f.blocks):
+            if i not in f.cfg.live:
+                continue
+            for j, st in enumerate(b["s"]):
+                if st[0] != "=":
+                    continue
+                pl = None
+                if len(st[1]) > 1 and ("." + field) in st[1]:
+                    pl = st[1]
+                elif st[2][0] == "ref" and st[2][1] == "mut" and ("." + field) in st[2][2]:
+                    pl = st[2][2]
+                elif st[2][0] == "rawptr" and "Mut" in st[2][1] and ("." + field) in st[2][2]:
+                    pl = st[2][2]
+                if pl is None:
+                    continue
+                # type of the part of the place that owns the field
+                idx = pl.index("." + field)
+                owner = f.flow.place_ty(pl[:idx]) or f.local_ty(pl[0])
+                if owner and (adt_head in owner or re.search(r"\b%s\b" % re.escape(short_adt), owner)):
+                    hits.append((i, st[-1]))
+        if hits:
+            out[f.q] = hits
+    return out
+
+
 def place_str(fn, pl):
     base = fn.local_name(pl[0]) or ("arg%d" % pl[0] if 1 <= pl[0] <= fn.argc else "_%d" % pl[0])
     return base + "".join(p for p in pl[1:] if p != "*")
